@@ -81,6 +81,9 @@ def run_case(case: dict) -> dict:
             elif o == "pdo_stop":
                 pdo.stop()
                 log({"e": o})
+            elif o == "pdo_cob":
+                pdo.cob_id = op["id"]
+                log({"e": o, "id": op["id"]})
             elif o == "pdo_set":
                 pdo[0].raw = op["d"][0] | op["d"][1] << 8
                 log({"e": o, "d": list(op["d"])})
